@@ -28,6 +28,54 @@ def angdiff(a, b):
     return min(d, TWO_PI - d)
 
 
+def _stumpff(z):
+    if z > 1e-6:
+        sz = math.sqrt(z)
+        return (1 - math.cos(sz)) / z, (sz - math.sin(sz)) / sz ** 3
+    if z < -1e-6:
+        sz = math.sqrt(-z)
+        return (math.cosh(sz) - 1) / (-z), (math.sinh(sz) - sz) / sz ** 3
+    return 0.5 - z / 24, 1 / 6 - z / 120
+
+
+def universal_two_body(r0, v0, dt, mu):
+    """state after dt by the universal-variable formulation (Bate-Mueller-White / Curtis): bisection on chi, f and g series"""
+    nr0 = float(np.linalg.norm(r0))
+    vr0 = float(r0 @ v0) / nr0
+    alpha = 2 / nr0 - float(v0 @ v0) / mu
+    sq = math.sqrt(mu)
+
+    def F(chi):
+        C, S = _stumpff(alpha * chi * chi)
+        return nr0 * vr0 / sq * chi * chi * C + (1 - alpha * nr0) * chi ** 3 * S + nr0 * chi - sq * dt
+    # F is increasing in chi: bracket then bisect
+    lo, hi = (0.0, 1.0) if dt >= 0 else (-1.0, 0.0)
+    for _ in range(200):
+        if dt >= 0 and F(hi) < 0:
+            hi *= 2
+        elif dt < 0 and F(lo) > 0:
+            lo *= 2
+        else:
+            break
+    else:
+        return None
+    for _ in range(200):
+        mid = 0.5 * (lo + hi)
+        if F(mid) > 0:
+            hi = mid
+        else:
+            lo = mid
+    chi = 0.5 * (lo + hi)
+    C, S = _stumpff(alpha * chi * chi)
+    f = 1 - chi * chi / nr0 * C
+    g = dt - chi ** 3 / sq * S
+    r = f * r0 + g * v0
+    nr = float(np.linalg.norm(r))
+    fd = sq / (nr * nr0) * (alpha * chi ** 3 * S - chi)
+    gd = 1 - chi * chi / nr * C
+    return np.concatenate([r, fd * r0 + gd * v0])
+
+
 def main(inp, outp):
     with open(inp) as fh:
         job = json.load(fh)
@@ -149,6 +197,14 @@ def main(inp, outp):
         okm = abs(km[0] - a) <= 1e-8 * abs(a) and abs(km[1] - e) <= 1e-9 * max(1, e) and (abs(km[5] - (M0 + n * (t1 + t2))) <= 1e-7 * (1 + abs(n * (t1 + t2))) if hyp else angdiff(km[5], M0 + n * (t1 + t2)) <= 1e-7 * (1 + abs(n * (t1 + t2))))
         clause("Kepler (float orbits, elliptic and hyperbolic, forwards and backwards): composition and M advance by n dt", rel <= 1e-7 * (1 + abs(n * (abs(t1) + abs(t2)))) and okm,
                "kepler/float-laws", f"kep {kep} t1={t1:.1f} t2={t2:.1f}: composition differs by {rel:.3g}; mean elements {km}", data)
+        # independent oracle: the universal-variable (Stumpff) solution of the two-body problem from the initial cartesian state
+        c0 = np.asarray(o.copy(form="cartesian"), float)
+        ttot = t1 + t2
+        uv = universal_two_body(c0[:3], c0[3:], ttot, MU)
+        if uv is not None:
+            rel_u = np.linalg.norm(y[:3] - uv[:3]) / np.linalg.norm(uv[:3]) + np.linalg.norm(y[3:] - uv[3:]) / np.linalg.norm(uv[3:])
+            clause("Kepler propagation agrees with an independent universal-variable solution of the two-body problem", rel_u <= 1e-7 * (1 + abs(n * ttot)),
+                   "kepler/universal-variable", f"kep {kep} dt={ttot:.1f}: differs from the universal-variable solution by {rel_u:.3g} (relative)", data)
     res["nontrivial"] = sorted(set(res["nontrivial"]))[:400]
     with open(outp, "w") as fh:
         json.dump(res, fh)
